@@ -147,7 +147,10 @@ auto_decoder_memconfig(void *coder_ptr, uint64_t *memusage,
 
 	lzma_ret ret;
 
-	if (coder->next.memconfig != NULL) {
+	// After a re-initialization coder->next may still hold the decoder
+	// of the previous file until the first input byte arrives. It must
+	// not be consulted then: it knows only the old memory usage limit.
+	if (coder->sequence != SEQ_INIT && coder->next.memconfig != NULL) {
 		ret = coder->next.memconfig(coder->next.coder,
 				memusage, old_memlimit, new_memlimit);
 		assert(*old_memlimit == coder->memlimit);
